@@ -109,6 +109,10 @@ def families():
                 yield "rep", ["<=", [S((s1, ab(c1, e)), (s2, ab(c2, e))), S(("+", num(2)))]]
                 yield "rep", ["<=", [S((s1, ab(c1, e))), S((s2, ab(c2, e)), ("+", num(2)))]]
                 yield "rep", [">=", [S(("+", num(6))), S((s1, ab(c1, e)), (s2, ab(c2, e)))]]
+        for s1, s2, s3 in itertools.product("+-", repeat=3):
+            for c3 in (None, 2):
+                yield "rep", ["<=", [S((s1, ab(None, e)), (s2, ab(None, e)), (s3, ab(c3, e))), S(("+", num(3)))]]
+                yield "rep", ["<=", [S((s1, ab(None, e))), S((s2, ab(None, e)), (s3, ab(c3, e)), ("+", num(4)))]]
         yield "rep", ["<=", [S(("+", ab(None, e)), ("+", ab(None, e)), ("+", ab(None, e))), S(("+", num(3)))]]
         yield "rep", ["<=", [S(("+", ab(None, e)), ("+", var(None, "z")), ("+", ab(2, e))), S(("+", num(3)))]]
     # bigabs: absolute values whose inner coefficients agree to 4 significant digits are different terms
